@@ -110,7 +110,7 @@ pub struct World {
 
 pub struct S6;
 
-fn expected_counter(ty: usize, blocks: u128, buffered: usize) -> u128 {
+pub fn expected_counter(ty: usize, blocks: u128, buffered: usize) -> u128 {
     let t = &TYPES[ty];
     match t.family {
         Family::Blake => blocks * t.block as u128 * 8,
@@ -121,7 +121,7 @@ fn expected_counter(ty: usize, blocks: u128, buffered: usize) -> u128 {
 }
 
 /// model of the buffering policy: (blocks compressed by this update, new buffered amount)
-fn absorb(ty: usize, buffered: usize, len: usize) -> (u128, usize) {
+pub fn absorb(ty: usize, buffered: usize, len: usize) -> (u128, usize) {
     let b = TYPES[ty].block;
     let tot = buffered + len;
     if TYPES[ty].family == Family::Skein {
@@ -137,7 +137,7 @@ fn absorb(ty: usize, buffered: usize, len: usize) -> (u128, usize) {
     }
 }
 
-fn pick_k(r: &mut Rng, ty: usize) -> (u128, usize) {
+pub fn pick_k(r: &mut Rng, ty: usize) -> (u128, usize) {
     let bs = boundaries(ty);
     let i = if r.chance(3, 4) { r.below(2.min(bs.len() as u64)) as usize } else { r.below(bs.len() as u64) as usize };
     let bnd = bs[i].0;
